@@ -52,6 +52,8 @@ def _ops():
         st.tuples(st.just("itrig"), _i, st.sampled_from([0, 3, 7, 10, 11])),
         st.tuples(st.just("cset"), _c, st.integers(0, len(VP) - 1), _k),
         st.tuples(st.just("cset"), _c, st.integers(0, len(VP) - 1), _k),
+        # the class is assigned the very value it shows (inherits) right now: from then on that value is its own
+        st.tuples(st.just("cset"), _c, st.integers(0, len(VP) - 1), _k, st.just(True)),
         st.tuples(st.just("imut"), _i, st.integers(0, len(MUT) - 1), _k),
         st.tuples(st.just("cmut"), _c, st.integers(0, len(MUT) - 1), _k),
         st.tuples(st.just("iattr"), _i, st.integers(0, len(ATTRS) - 1), _k),
@@ -367,6 +369,9 @@ def execute(case):
             K = classes[op[1]]
             n = VP[op[2]]
             v = newval(n, op[3])
+            if len(op) > 4 and op[4]:
+                v = getattr(K, n)
+                res.label("class_assigned_the_value_it_inherits")
             try:
                 setattr(K, n, v)
             except ValueError:
@@ -451,11 +456,9 @@ def execute(case):
                 elif n == "l" and n not in rec["own"]:
                     pass
                 # class mirrors: an instance that follows the class default mutates the shared object
-                for K in classes:
-                    if cmir(K, n) is not None and getattr(K, n) is cur:
-                        for kk in K.__mro__:
-                            if (kk, n) in cmirror and cown.get((kk, n)) is cur:
-                                cmirror[(kk, n)].append(op[3])
+                for (kk, nn), m_ in list(cmirror.items()):
+                    if nn == n and cown.get((kk, nn)) is cur:
+                        m_.append(op[3])         # every class that holds this very object (it may be shared after `K.l = K.l`)
             elif isinstance(cur, dict):
                 cur[f"m{op[3]}"] = op[3]
                 if n in rec["mirror"] and rec["mirror"][n] is not None:
@@ -472,9 +475,9 @@ def execute(case):
             cur = getattr(K, n)
             if isinstance(cur, list):
                 cur.append(op[3])
-                for kk in K.__mro__:
-                    if (kk, n) in cmirror and cown.get((kk, n)) is cur:
-                        cmirror[(kk, n)].append(op[3])
+                for (kk, nn), m_ in list(cmirror.items()):
+                    if nn == n and cown.get((kk, nn)) is cur:
+                        m_.append(op[3])
             elif isinstance(cur, dict):
                 cur[f"c{op[3]}"] = op[3]
             else:
